@@ -5,10 +5,11 @@ from ..monitors.cells import Cells
 
 make(globals(), "C10", [functools.partial(Cells, props=("C10",))],
      families=["atoms_cellb", "atoms_cellv", "dip_cellb", "dip_cellv", "water_vv", "water_vi", "water_pb",
-               "hdd_cells", "cuboid_cells", "dense_cells", "dense_cells", "dip_atom_ff", "dip_atom_ff", "dip_atom_ff", "dip_atom_ff", "dip_atom",
+               "hdd_cells", "cuboid_cells", "dense_cells", "dense_cells", "dip_atom_ff", "dip_atom_ff", "dip_atom_ff", "chain_ff", "chain_ff", "dip_atom",
                "dip_in", "dip_motion", "water_pi", "water_one", "hdd", "atoms_power"],
      rule=("seeded whole runs; at every leg the targets of nearby / surplus / far (cell-veto, cell-bounding) events "
            "are compared, as multisets, with the units located by position, and factor-file in-states with an "
            "independent parse of the factor file; non-trivial = >= 50 partition or factor checks"),
+     construction_anchor_files=["factor_type_maps.py", "factor_type_map_in_state_tagger.py"],
      nontrivial=lambda r: (r.probes.get("c10_partitions_checked", 0) + r.probes.get("c10_factor_in_state_checks", 0))
      >= 50)
